@@ -1,3 +1,5 @@
+import GPy.C19.Gen
+import GPy.C05.Gen
 import GPy.C16.Gen
 import GPy.C15.Gen
 import GPy.C07.Gen
@@ -11,5 +13,7 @@ def main (args : List String) : IO UInt32 := do
     | "C07" => GPy.C07.genMain tier seed; return 0
     | "C15" => GPy.C15.genMain tier seed; return 0
     | "C16" => GPy.C16.genMain tier seed; return 0
+    | "C05" => GPy.C05.genMain tier seed; return 0
+    | "C19" => GPy.C19.genMain tier seed; return 0
     | _ => IO.eprintln s!"unknown property {prop}"; return 2
   | _ => IO.eprintln "usage: gpymodel <Cxx> <quick|thorough> <seed>"; return 2
